@@ -49,6 +49,7 @@ RULES: Dict[str, Callable] = {
     "R-NAMEPATHS": _cached("R-NAMEPATHS", generic.run_namepaths),
     "R-COLPERM": _cached("R-COLPERM", generic.run_colperm),
     "R-DEFAULTS": _cached("R-DEFAULTS", generic.run_defaults),
+    "R-DTYPEKW": _cached("R-DTYPEKW", generic.run_dtypekw),
     "R-REGISTRAR": _cached("R-REGISTRAR", anchored.run_registrar),
     "R-OUTER": _cached("R-OUTER", anchored.run_outer),
     "R-NONE": _cached("R-NONE", anchored.run_none),
@@ -147,6 +148,7 @@ PLAN: Dict[str, dict] = {
             G("R-CLEAN", "the clean-up after each operation drops exactly the all-zero non-constant terms", only=in_funcs("remove_redundant_coefficients")),
             S("R-BISECT", "no bisection on a sequence that was sorted with a key function (name / exponent look-ups are by equality)"),
             S("R-NAMEPATHS", "all return paths of a wrapper keep the operands' names (no names-dropping fast path)"),
+            S("R-DTYPEKW", "a dtype= keyword on data computed from several operands is not a single operand's dtype"),
         ],
         "explanation": "Structural clauses of exact ring arithmetic: (1) add/subtract/negative/positive hand the "
                        "coefficient storage to the numpy function they are registered for, operands in parameter order; "
@@ -193,6 +195,7 @@ PLAN: Dict[str, dict] = {
             S("R-MEMORDER", "flattening / reshaping keeps numpy's logical element order (no literal memory-dependent order)"),
             S("R-COLPERM", "re-ordered names and their exponent columns are permuted together"),
             G("R-TERMS", "the term accessors range over every key; todict keeps every term and the coefficient arrays themselves"),
+            G("R-OPT-LAYERS", "the retain flags are resolved from the options before they decide what is dropped", only=msg("O12")),
         ],
         "explanation": "Construction goes through validated constructors: every normal return of postprocess_attributes passed the "
                        "2-d / length / name-count / duplicate-name / duplicate-exponent checks; encode/decode of storage keys use "
@@ -350,6 +353,7 @@ PLAN: Dict[str, dict] = {
             S("R-MEMORDER", "flattening / reshaping keeps numpy's logical element order (no literal memory-dependent order)"),
             S("R-SIGPOS", "positional arguments bind as in numpy's signature"),
             S("R-DEFAULTS", "shared value/shape parameters have numpy's defaults (a call without them does what numpy does)"),
+            S("R-DTYPEKW", "a dtype= keyword on data computed from several operands is not a single operand's dtype"),
         ],
         "explanation": "sum/cumsum/mean dispatch their namesake per aligned key with axis/dtype/keepdims forwarded; diff aligns a, "
                        "prepend and append in one call and writes every key; every numpy call in the call graph of the reductions "
@@ -373,6 +377,7 @@ PLAN: Dict[str, dict] = {
             S("R-SIGPOS", "positional arguments bind as in numpy's signature"),
             S("R-NAMEPATHS", "all return paths of a wrapper keep the operands' names (no names-dropping fast path)"),
             S("R-DEFAULTS", "shared value/shape parameters have numpy's defaults (a call without them does what numpy does)"),
+            S("R-DTYPEKW", "a dtype= keyword on data computed from several operands is not a single operand's dtype"),
         ],
         "explanation": "Last sentence in full: in true_divide/floor_divide/remainder/divmod every path to the numeric ufunc or to a "
                        "normal return passed divisor.isconstant() and the other edge raises FeatureNotSupported. Every registered "
@@ -390,6 +395,7 @@ PLAN: Dict[str, dict] = {
             G("R-CLEAN", "a result whose terms were all filtered away (or that has no element at all) keeps the shape and dtype of its inputs", only=msg("zero fall-back", "clean_attributes: dtype")),
             G("R-POWER", "the constant one that seeds a power carries the base's dtype", only=msg("dtype of the initial one")),
             S("R-MEMORDER", "flattening / reshaping keeps numpy's logical element order (no literal memory-dependent order)"),
+            S("R-DTYPEKW", "a dtype= keyword on data computed from several operands is not a single operand's dtype"),
         ],
         "explanation": "The C writers' dtype switch is read from the .pyx (cannot be rebuilt here): arms, element/pointer types, "
                        "default arm; polynomial_from_attributes casts every coefficient to the buffer dtype and uses the raw writer "
@@ -410,6 +416,7 @@ PLAN: Dict[str, dict] = {
             G("R-OPT-TABLE", "unpickling and loadtxt rebuild under the options in force (retain_names): an option leaked by an earlier block changes the object that comes back"),
             S("R-MEMORDER", "flattening / reshaping keeps numpy's logical element order (no literal memory-dependent order)"),
             S("R-DEFAULTS", "shared value/shape parameters have numpy's defaults (a call without them does what numpy does)"),
+            G("R-OPT-LAYERS", "__reduce__ passes one retain flag and relies on the other being resolved from the options (never used while still None)", only=msg("O12")),
         ],
         "explanation": "__reduce__ returns polynomial_from_attributes with exponents/coefficients/names/dtype/allocation bound to the "
                        "right parameters; __array_finalize__ copies exactly the attribute set __new__ assigns; HEADER_REGEX is built "
@@ -440,6 +447,7 @@ PLAN: Dict[str, dict] = {
             G("R-ALIGN", "operands are combined by position only after alignment: equal keys do not imply equal names once retain_names=False drops unused names"),
             S("R-BISECT", "no bisection on a sequence that was sorted with a key function (name / exponent look-ups are by equality)"),
             S("R-COLPERM", "re-ordered names and their exponent columns are permuted together"),
+            G("R-GUARDS", "no option setting lets construction skip the normalisation / validation of its attributes", only=in_funcs("postprocess_attributes")),
         ],
         "explanation": "Who-may-read layering of the 12 option keys over all 33 read sites; retain_* only replace a None argument; "
                        "graded=/reverse= receive *_graded/*_reverse of the right family or the function's own parameters; "
